@@ -1,2 +1,97 @@
-(* Props_C05.v -- placeholder, theorems are added below as they are proved *)
-From LM Require Import Base.
+(* Props_C05.v -- property C05: the map is a dictionary for all key sets and operation orders.
+   ONLY statements closed by `exact` + Print Assumptions.  Everything holds for an ARBITRARY hash function
+   (Section variable `hash` of MapM.v / MapProofs.v, generalised here), every table size >= 4 (the code starts at
+   cMAP_SIZE_DEFAULT and only doubles), every flag combination.
+   Has s k v = "some slot of table s holds key k with value v" -- the finite map the table represents. *)
+From LM Require Import Base SeqLemmas MapM MapProofs.
+
+(* 1. the representation invariant holds in every reachable state, whatever the operations (puts with growth, removals with
+      back-shift, clear, free, callback iteration with removals, iterator set/remove):
+      keys distinct, every key within the probe window of its home slot with no empty slot on its path,
+      length field = number of live entries, at least one free slot *)
+Theorem C05_invariant : forall hash size upd dup dtor ops, 4 <= size ->
+  MInv hash (ms_m (final (m_step hash) (m_init size upd dup dtor) ops)).
+Proof. exact m_inv_reachable. Qed.
+Print Assumptions C05_invariant.
+
+Theorem C05_default_size_ok : 4 <= N.to_nat Consts.cMAP_SIZE_DEFAULT.
+Proof. vm_compute. repeat constructor. Qed.
+Print Assumptions C05_default_size_ok.
+
+(* 2. get / contains answer for exactly the live entries *)
+Theorem C05_get : forall hash st k, m_freed (ms_m st) = false -> MInv hash (ms_m st) ->
+  fst (m_step hash st (MGet k)) = st /\
+  exists r, snd (m_step hash st (MGet k)) = [EPtr r] /\ lookup_is (m_slots (ms_m st)) k r.
+Proof. exact get_correct. Qed.
+Print Assumptions C05_get.
+
+Theorem C05_contains : forall hash st k, m_freed (ms_m st) = false -> MInv hash (ms_m st) ->
+  fst (m_step hash st (MContains k)) = st /\
+  ((exists v, Has (m_slots (ms_m st)) k v) /\ snd (m_step hash st (MContains k)) = [ERet 1] \/
+   (forall v, ~ Has (m_slots (ms_m st)) k v) /\ snd (m_step hash st (MContains k)) = [ERet 0]).
+Proof. exact contains_correct. Qed.
+Print Assumptions C05_contains.
+
+(* 3. put: stores a new key (nothing else changes), or replaces the value of a present key when updates are allowed,
+      or fails without effect on the entries (the table may have been rehashed: same entries) *)
+Theorem C05_put : forall hash st k v, m_freed (ms_m st) = false -> MInv hash (ms_m st) -> v <> 0%N ->
+  let m := ms_m st in let m' := ms_m (fst (m_step hash st (MPut k v))) in
+  MInv hash m' /\
+  ( ((forall w, ~ Has (m_slots m) k w) /\ (forall k' v', Has (m_slots m') k' v' <-> ((k' = k /\ v' = v) \/ Has (m_slots m) k' v')) /\
+      m_len m' = S (m_len m) /\ last (snd (m_step hash st (MPut k v))) (ERet 1) = ERet 0)
+    \/ (m_upd m = true /\ (exists old, Has (m_slots m) k old) /\
+        (forall k' v', Has (m_slots m') k' v' <-> ((k' = k /\ v' = v) \/ (k' <> k /\ Has (m_slots m) k' v'))) /\
+        m_len m' = m_len m /\ last (snd (m_step hash st (MPut k v))) (ERet 1) = ERet 0)
+    \/ (Same (m_slots m) (m_slots m') /\ m_len m' = m_len m /\
+        exists z, (z < 0)%Z /\ last (snd (m_step hash st (MPut k v))) (ERet 1) = ERet z)).
+Proof. exact put_step_correct. Qed.
+Print Assumptions C05_put.
+
+(* 4. remove deletes exactly the named entry; an absent key fails without effect *)
+Theorem C05_remove : forall hash st k, m_freed (ms_m st) = false -> MInv hash (ms_m st) ->
+  let m := ms_m st in let m' := ms_m (fst (m_step hash st (MRemove k))) in
+  ((exists v, Has (m_slots m) k v) /\ (forall k' v', Has (m_slots m') k' v' <-> (k' <> k /\ Has (m_slots m) k' v')) /\
+    m_len m' + 1 = m_len m /\ last (snd (m_step hash st (MRemove k))) (ERet 1) = ERet 0)
+  \/ ((forall v, ~ Has (m_slots m) k v) /\ m' = m /\ exists z, (z < 0)%Z /\ snd (m_step hash st (MRemove k)) = [ERet z]).
+Proof. exact remove_step_correct. Qed.
+Print Assumptions C05_remove.
+
+(* 5. len = number of live entries; the live keys are pairwise distinct *)
+Theorem C05_len : forall hash st, m_freed (ms_m st) = false -> MInv hash (ms_m st) ->
+  snd (m_step hash st MLen) = [ERet (Z.of_nat (length (keys (m_slots (ms_m st)))))] /\ NoDup (keys (m_slots (ms_m st))) /\
+  (forall k, In k (keys (m_slots (ms_m st))) <-> exists v, Has (m_slots (ms_m st)) k v).
+Proof. exact len_correct. Qed.
+Print Assumptions C05_len.
+
+(* 6. rehash keeps exactly the entries; back-shift removal of one slot removes exactly its key (the two lemmas the rest rests on) *)
+Theorem C05_rehash : forall hash s r, TInv hash s -> rehash hash s = Some r ->
+  TInv hash r /\ length r = 2 * length s /\ Same s r /\ occ_count r = occ_count s.
+Proof. exact rehash_correct. Qed.
+Print Assumptions C05_rehash.
+
+Theorem C05_backshift_removal : forall hash s i0 k v, TInv hash s -> i0 < length s -> at_ s i0 = Some (k, v) -> occ_count s < length s ->
+  let r := clear_slot hash s i0 in
+  TInv hash r /\ length r = length s /\ (forall k' v', Has r k' v' <-> (k' <> k /\ Has s k' v')) /\ occ_count r + 1 = occ_count s.
+Proof. exact clear_slot_correct. Qed.
+Print Assumptions C05_backshift_removal.
+
+(* 7. iteration by callback WITHOUT mutation visits every live entry exactly once *)
+Theorem C05_iterate_plain : forall hash st rc, m_freed (ms_m st) = false -> MInv hash (ms_m st) -> m_len (ms_m st) <> 0 ->
+  let ks := keys (m_slots (ms_m st)) in
+  m_step hash st (MIterate 0 rc false) = (mkMS (ms_m st) None, List.map EVisit ks ++ [ERet 0]) /\ NoDup ks /\
+  (forall k, In k ks <-> exists v, Has (m_slots (ms_m st)) k v).
+Proof. exact iterate_visits_each_once. Qed.
+Print Assumptions C05_iterate_plain.
+
+(* 8. the clause "iteration ... with removal of the current entry visits every live entry exactly once" is FALSE of the
+      faithful model (and of the code: known finding D12, replay corpus/C05/d12_iter_remove_wrap.txt): witness by computation *)
+Theorem C05_iterate_with_removal_refuted :
+  exists tbl ops, ~ NoDup (keys_seen (skipn 4 (m_run tbl false false false ops))).
+Proof. exact iterate_with_removal_refuted. Qed.
+Print Assumptions C05_iterate_with_removal_refuted.
+
+(* non-vacuity: a reachable non-trivial state (3 colliding keys, one removed) satisfies the hypotheses used above *)
+Example C05_nonvacuous :
+  let st := final (m_step (assoc_hash d12_hash)) (m_init 256 true false true) [MPut 55325 102; MPut 15850 104; MPut 42048 105; MRemove 55325]%N in
+  m_freed (ms_m st) = false /\ m_len (ms_m st) = 2 /\ keys (m_slots (ms_m st)) <> [].
+Proof. vm_compute. repeat split; discriminate. Qed.
